@@ -51,7 +51,21 @@ static void drop_kept(void) { delete kept_pe; kept_pe = NULL; }
 
 void xx_new_config(void) { cx = new Config(); drv_cfgp = cx->_config; }
 void xx_delete_config(void) { delete cx; cx = NULL; drv_cfgp = NULL; check_kept(); drop_kept(); }
-void xx_reload_config(void) { Config *old = cx; cx = new Config(); drv_cfgp = cx->_config; delete old; check_kept(); drop_kept(); }
+void xx_reload_config(void)
+{
+  Config *old = cx;
+  try { cx = new Config(); }
+  catch(const std::bad_alloc &)
+  {
+    /* an allocation failed inside Config::Config(): the documented exception */
+    fputs("R throw bad_alloc\n", out);
+#ifdef DRV_FAULT
+    fflush(out); _exit(0);
+#endif
+    cx = old; return;
+  }
+  drv_cfgp = cx->_config; delete old; check_kept(); drop_kept();
+}
 
 static uint64_t dbits(double d) { uint64_t b; memcpy(&b, &d, 8); return b; }
 static double bdbl(uint64_t b) { double d; memcpy(&d, &b, 8); return d; }
